@@ -425,6 +425,47 @@ def _ite(I, c, a, b):
     return I.ite(I.z3bool(c), a, b)
 
 
+_OPVAL = {}
+
+
+def _opval_fn():
+    if 'f' not in _OPVAL:
+        A = lambda srt: z3.ArraySort(z3.IntSort(), srt)
+        _OPVAL['f'] = z3.Function('opval', A(U), A(z3.IntSort()), A(z3.BoolSort()), z3.IntSort(), U)
+        _OPVAL['neg'] = z3.Function('opneg', U, U)
+    return _OPVAL['f'], _OPVAL['neg']
+
+
+@reg('opval')
+def _opval(I, arr):
+    """value of the operator product  op_0(site_0) op_1(site_1) ...  in the Z2-graded operator algebra (uninterpreted);
+    `arr` is a list of (op, site, needs_JW)."""
+    f, _ = _opval_fn()
+    return Opq(f(arr.leaves[0], arr.leaves[1], arr.leaves[2], to_z3(arr.n)))
+
+
+@reg('opsigned')
+def _opsigned(I, sign, v):
+    _, neg = _opval_fn()
+    return Opq(z3.If(to_z3(sign) == 1, v.t, neg(v.t)))
+
+
+@reg('swap_val')
+def _swap_val(I, pre, post, s):
+    """defining relation of the graded algebra, one instance: if `post` is `pre` with the neighbouring factors s, s+1
+    exchanged and they act on different sites, then val(post) = (-1)^(jw_s * jw_{s+1}) val(pre);  neg is an involution."""
+    f, neg = _opval_fn()
+    zs = to_z3(s)
+    swapped = [z3.Store(z3.Store(l, zs, z3.Select(l, zs + 1)), zs + 1, z3.Select(l, zs)) for l in pre.leaves]
+    is_swap = z3.And(*[a == b for a, b in zip(post.leaves, swapped)], to_z3(post.n) == to_z3(pre.n), 0 <= zs, zs + 1 < to_z3(pre.n))
+    vpre = f(pre.leaves[0], pre.leaves[1], pre.leaves[2], to_z3(pre.n))
+    vpost = f(post.leaves[0], post.leaves[1], post.leaves[2], to_z3(post.n))
+    both = z3.And(z3.Select(pre.leaves[2], zs), z3.Select(pre.leaves[2], zs + 1))
+    diff_sites = z3.Select(pre.leaves[1], zs) != z3.Select(pre.leaves[1], zs + 1)
+    return z3.And(z3.Implies(z3.And(is_swap, diff_sites), vpost == z3.If(both, neg(vpre), vpre)),
+                  neg(neg(vpre)) == vpre, neg(neg(vpost)) == vpost)
+
+
 @reg('sum_unfold')
 def _sum_unfold(I, arr, lo, hi):
     """definitional unfolding of the specification sum at its upper end:
